@@ -98,6 +98,7 @@ type vfH struct {
 	closeErr     error                    // returned by every object Close (the close still counts)
 	ioFailFrom   int64                    // when > 0: ReadAt/WriteAt at or beyond this offset fail (after their gate)
 	listOverride map[string][]os.FileInfo // directory path -> entries to list verbatim
+	infoOverride map[string]os.FileInfo   // path -> the FileInfo Stat/Lstat (and so FSTAT) report verbatim
 	log          []string                 // ordered event log: "start WriteAt obj#3", "close obj#3", ...
 }
 
@@ -475,6 +476,7 @@ type vfMemInfo struct {
 	mode     os.FileMode
 	mtime    int64
 	uid, gid uint32
+	sys      any // what Sys() returns: nil, or e.g. the *syscall.Stat_t of a real file the entry wraps
 }
 
 func (i vfMemInfo) Name() string       { return i.name }
@@ -482,7 +484,7 @@ func (i vfMemInfo) Size() int64        { return i.size }
 func (i vfMemInfo) Mode() os.FileMode  { return i.mode }
 func (i vfMemInfo) ModTime() time.Time { return time.Unix(i.mtime, 0) }
 func (i vfMemInfo) IsDir() bool        { return i.mode.IsDir() }
-func (i vfMemInfo) Sys() any           { return nil }
+func (i vfMemInfo) Sys() any           { return i.sys }
 func (i vfMemInfo) Uid() uint32        { return i.uid }
 func (i vfMemInfo) Gid() uint32        { return i.gid }
 
@@ -555,7 +557,9 @@ func (h *vfH) list(handler string, r *sftp.Request) (sftp.ListerAt, error) {
 			return nil, fmt.Errorf("not a symlink")
 		}
 		o := h.newObj("statlister", r.Filepath, f, r)
-		if r.Method == "Readlink" {
+		if ov, ok := h.infoOverride[r.Filepath]; ok && r.Method != "Readlink" {
+			o.list = []os.FileInfo{ov}
+		} else if r.Method == "Readlink" {
 			o.list = []os.FileInfo{vfMemInfo{name: f.link, mode: f.mode}}
 		} else {
 			o.list = []os.FileInfo{h.info(path.Base(r.Filepath), f)}
@@ -600,6 +604,11 @@ func (o *vfHObj) readAt(b []byte, off int64) (int, error) {
 	if o.h.ioFailFrom > 0 && off >= o.h.ioFailFrom {
 		return 0, errVfIO
 	}
+	// like any context-aware backend: a request whose context is gone is not served (seed C14-d) - the
+	// package cancels it when the handle is closed or the session ends, never while a call is in progress
+	if err := o.ctx.Err(); err != nil {
+		return 0, err
+	}
 	f := o.file
 	f.mu.Lock()
 	defer f.mu.Unlock()
@@ -622,6 +631,9 @@ func (o *vfHObj) writeAt(b []byte, off int64) (int, error) {
 	o.mu.Unlock()
 	if o.h.ioFailFrom > 0 && off >= o.h.ioFailFrom {
 		return 0, errVfIO
+	}
+	if err := o.ctx.Err(); err != nil {
+		return 0, err
 	}
 	if off < 0 || off+int64(len(b)) > 1<<24 {
 		return 0, fmt.Errorf("too large")
